@@ -464,6 +464,7 @@ func rt_12(c *core.Ctx, p *core.Prog) {
 		key := "fn=" + core.FuncName(fn)
 		pos := p.Pos(fn.Pos())
 		// the comparisons: prev != int(acc) where acc = φ + delta(call)
+		helperPrev := map[*ssa.If]ssa.Value{}
 		findCmp := func(call *ssa.Call) (*ssa.If, *ssa.BinOp, bool) {
 			var delta ssa.Value
 			for _, r := range core.Referrers(call) {
@@ -475,6 +476,26 @@ func rt_12(c *core.Ctx, p *core.Prog) {
 				iff := core.IfOf(b)
 				if iff == nil {
 					continue
+				}
+				// the test may be a small predicate that is handed the previous id and the accumulated one
+				// (`prev.differsFrom(resID)` on a `{id, seen}` value)
+				if hc, isCall := iff.Cond.(*ssa.Call); isCall && isBool(hc.Type()) {
+					if h := hc.Call.StaticCallee(); h != nil && len(h.Blocks) > 0 && core.InRepo(core.FnPkgPath(h)) && len(hc.Call.Args) == 2 {
+						for k, arg := range hc.Call.Args {
+							add, ok := core.StripConv(arg).(*ssa.BinOp)
+							isAcc := ok && add.Op == token.ADD && (add.Y == delta || add.X == delta)
+							if isAcc || core.StripConv(arg) == delta {
+								_, okPhi := ssa.Value(nil).(*ssa.Phi)
+								if isAcc {
+									_, p1 := add.X.(*ssa.Phi)
+									_, p2 := add.Y.(*ssa.Phi)
+									okPhi = p1 || p2
+								}
+								helperPrev[iff] = hc.Call.Args[1-k]
+								return iff, nil, okPhi
+							}
+						}
+					}
 				}
 				cmp, ok := iff.Cond.(*ssa.BinOp)
 				if !ok || cmp.Op != token.NEQ {
@@ -509,9 +530,14 @@ func rt_12(c *core.Ctx, p *core.Prog) {
 		}
 		// scope tracking reset on the resource-change arm: the `prev scope` operand of the scope comparison is a φ (or chain) that
 		// receives a constant on an edge guarded by the resource test's true arm
-		var prevScope ssa.Value = scopeCmp.X
-		if _, isAdd := core.StripConv(scopeCmp.X).(*ssa.BinOp); isAdd {
-			prevScope = scopeCmp.Y
+		var prevScope ssa.Value
+		if scopeCmp != nil {
+			prevScope = scopeCmp.X
+			if _, isAdd := core.StripConv(scopeCmp.X).(*ssa.BinOp); isAdd {
+				prevScope = scopeCmp.Y
+			}
+		} else {
+			prevScope = helperPrev[scopeIf]
 		}
 		reset := false
 		seenV := map[ssa.Value]bool{}
@@ -526,7 +552,8 @@ func rt_12(c *core.Ctx, p *core.Prog) {
 				return
 			}
 			for k, e := range ph.Edges {
-				if cst, ok := e.(*ssa.Const); ok && cst.Value != nil && cst.Value.Kind() == constant.Int {
+				_, isStruct := e.Type().Underlying().(*types.Struct)
+				if cst, ok := e.(*ssa.Const); ok && ((cst.Value != nil && cst.Value.Kind() == constant.Int) || (cst.Value == nil && isStruct)) {
 					pred := ph.Block().Preds[k]
 					last := pred.Instrs[len(pred.Instrs)-1]
 					if core.GuardedBy(resIf, true, last) {
